@@ -94,7 +94,7 @@ def run(ctx: Ctx) -> None:
         "TLC; Pulser NoiseModel / Observable API",
     ]
     full = {"p": "cPExps", "e": "cEExps", "dt": "cDts", "obs": "cObsSets"}
-    quick = {"p": "cPExpsQ", "e": "cEExpsQ", "dt": "cDtsQ", "obs": "cObsSets"}
+    quick = {"p": "cPExpsQ3", "e": "cEExpsQ4", "dt": "cDtsQ", "obs": "cObsSets"}
     big = quick if ctx.quick else full
     # ---- (1) model checking of the full cross product
     mc = run_tlc("MCEmuConfig", None, workdir=ctx.work, name="mc_asfound", cfg_text=cfg_text(big, False, False), workers=4)
@@ -114,7 +114,7 @@ def run(ctx: Ctx) -> None:
     ctx.coverage["model_verdicts"] = {"as_found": [v[1] for v in mc["violated"]], "intended": [], "seeded_model_defects_detected": [] if ctx.quick else ["floor_le13", "whitelist_state"]}
 
     # ---- (2) rows for the real code
-    cross = ({"p": "cPExpsQ", "e": "cEExpsQ", "dt": "cDtsQ3", "obs": "cObsFewQ"} if ctx.quick
+    cross = ({"p": "cPExpsQ3", "e": "cEExpsQ4", "dt": "cDtsQ3", "obs": "cObsFewQ"} if ctx.quick
              else {"p": "cPExps", "e": "cEExps", "dt": "cDtsQ", "obs": "cObsFew"})
     obsx = {"p": "cPOne", "e": "cEOne", "dt": "cDtInf", "obs": "cObsSets"}
     tables: dict = {}
@@ -201,7 +201,7 @@ def run(ctx: Ctx) -> None:
     from pulser.backend import Occupation
 
     rng = ctx.rng
-    n = ctx.pick(400, 6000)
+    n = ctx.pick(250, 6000)
     worst = math.inf
     for i in range(n):
         precision = 10.0 ** rng.uniform(-15, -2)
@@ -222,9 +222,9 @@ def run(ctx: Ctx) -> None:
     ctx.coverage["random_tolerance_pairs"] = n
     ctx.coverage["smallest_product_over_1e-12"] = worst
     # ---- (3b) tolerance at the point of use
-    cases = [{"precision": 1e-8, "extra": 1e-7}, {"precision": 1e-13, "extra": 1e-3}, {"precision": 1e-6, "extra": 1e-9}]
+    cases = [{"precision": 1e-8, "extra": 1e-7}, {"precision": 1e-13, "extra": 1e-3}]
     if not ctx.quick:
-        cases += [{"precision": 1e-10, "extra": 1e-2 * (1 - 1e-9)}, {"precision": 3e-7, "extra": 1e-6}, {"precision": 1e-5, "extra": 1e-3}]
+        cases += [{"precision": 1e-6, "extra": 1e-9}, {"precision": 1e-10, "extra": 1e-2 * (1 - 1e-9)}, {"precision": 3e-7, "extra": 1e-6}, {"precision": 1e-5, "extra": 1e-3}]
     for r in pmap(run_tolerance_at_point_of_use, cases):
         if "raised" in r:
             ctx.notes.append(f"point-of-use run {r['case']} raised {r['raised']}")
